@@ -136,6 +136,7 @@ func runC15(env *core.Env) {
 				for _, b := range grp {
 					if a != b {
 						out = append(out, core.R("", "--json", "sequence", a, b), core.R("", "--json", "sequence", "rm", a, b))
+						out = append(out, core.R("", "--json", "sequence", a, b, a)) // a chain that revisits an id
 					}
 				}
 			}
@@ -185,7 +186,7 @@ func runC15(env *core.Env) {
 				cls = "with-inherited-epic-edge"
 			}
 			report(env, fmt.Sprintf("C15 kind=waits-for-cycle %s closed-by=%s", cls, last), fmt.Sprintf("waits-for cycle %v (%d inherited edges) after %v", cyc, nInh, n.Shell()),
-				mkTrace(root, "effective waits-for relation has a cycle", n.Path, Assert{Kind: "exit_zero", Step: len(n.Path)}))
+				mkTrace(root, "effective waits-for relation has a cycle", n.Path, Assert{Kind: "has_waits_for_cycle", Step: len(n.Path)}))
 		}
 	progress:
 		// progress: some todo, none doing/blocked/error => something is ready and claim does not say no_ready
